@@ -179,6 +179,9 @@ def main(argv):
                        'migration requests go to one controller at a time per source (the driver sends one PageMigrationReqToCP at a time), have page sizes that are multiples of 64 and name the other controller',
                        'theorem pmc_bidirectional: requests to either controller at any time, sources inside / destinations outside the read-only region of each memory; theorem pmc_liveness: fair schedules (every canonical action at least once per round), page size >= 64',
                        'whole-system run: atax -gpus=1,2 -timing -use-unified-memory (needs the platform wiring fix; unavailable while C01 finding unified-memory-timing-multi-gpu is open)',
+                       'theorem migration_every_page_copied_and_remapped: allocator hygiene (a free physical page is listed once, on one device, and is not mapped; C10 territory), distinct aligned pages in one request; '
+                       'theorem handshake_every_page_once: GPUReqToVAddrMap has one group per GPU number (it is a Go map) and the map iteration visits every group once',
+                       'handshake scenarios: the harness plays MMU, command processors and physical memory (one 4 KiB byte array per physical page); a PageMigrationReqToCP is executed as a page copy when it is acknowledged',
                        'sampled schedules only decide whether the real controllers still behave like the model']
     thorough = vlib.tier() == 'thorough'
     n = 1500 if thorough else 120
